@@ -190,6 +190,21 @@ CHECKS = {
         'outside': ['vauth SubmitProofExternalOwnedAccount (signature verification, fee burn, no overwrite)', 'ECDSA / Keccak'],
         'assumptions': COMMON_ASSUMPTIONS,
     },
+    'C08': {
+        'pkgs': ['./zzverif/hsdb', './zzverif/htx'],
+        'harnesses': [
+            {'fn': H + 'H_C08_1_StateDBIsolation', 'over': {'max-paths': 100000}},
+            {'fn': T + 'H_C08_2a_EthCall', 'over': {'max-decisions': 2000, 'max-paths': 100000}, 'must_reach': ['eth-call-executed']},
+            {'fn': T + 'H_C08_2b_NoCommit', 'over': {'max-decisions': 2000, 'max-paths': 100000}, 'must_reach': ['executed']},
+            {'fn': T + 'H_C08_2c_TrialExecution', 'over': {'max-decisions': 2000, 'max-paths': 100000}, 'must_reach': ['trial-deliver', 'trial-mempool-accepted']},
+            {'fn': T + 'H_C08_3_Prediction', 'over': {'max-decisions': 2000, 'max-paths': 100000}, 'must_reach': ['predicted']},
+        ],
+        'level_text': 'Bounded symbolic execution of the no-commit paths of the real code: the context-based StateDB without CommitMultiStore (14 operations, snapshot/revert brackets), the real Keeper.EthCall, ApplyMessageWithConfig(commit=false) and the real mempool trial execution ELExecWithoutErrorDecorator (check / re-check / simulate / deliver), over a symbolic ledger and a symbolic contract behaviour incl. storage writes, value transfers, self-destruct and creation with code deposit: z3 decides on every path that every persistent store (for the trial execution: every store, incl. the rolled-back sender sequence and flags) and the event manager of the caller\'s context are unchanged; and, by self-composition, that commit=false and commit=true return the same gas used, VM error and return data.',
+        'level_note': 'EstimateGas (binary search over executions) and the trace endpoints are not encoded: "a returned estimate suffices" and tracer isolation are outside. ApplyMessageWithConfig writes per-tx bookkeeping into the transient store of the context it is given also with commit=false; queries rely on BaseApp handing them a throw-away branch (assumption).',
+        'bounds': SDB_BOUNDS + TX_BOUNDS,
+        'outside': ['eth_estimateGas sufficiency', 'TraceTx / TraceBlock', 'gRPC plumbing, BaseApp query contexts'],
+        'assumptions': TX_ASSUMPTIONS,
+    },
     'C09': {
         'level_text': 'Bounded model checking of the real CalculateBaseFee / EndBlock / misc.CalcBaseFee code: every feasible path is enumerated and each assertion (no panic, EIP-1559 value, floors) is decided by z3 over the full integer ranges stated in the bounds; this is the right level because the property is pure integer arithmetic whose failures sit at rare boundary values (zero gas target, >int64 fees).',
         'level_note': 'Trusted: gosym interpreter and Int encoding, z3 5.1.0 (cross-checked by z3 4.8.12/cvc5), store/codec/logger models; BaseApp block-gas-meter rule (limited iff MaxGas > 0) is modelled in the harness; fee-market end blocker ordering is not checked.',
